@@ -130,6 +130,9 @@ pub fn set_error_detail(enabled: bool) {
 #[derive(Debug)]
 struct CallLimitTracker {
     current_call_limit: Option<(usize, usize)>,
+    /// Set once a call was refused because of the limit: the refusal looks like
+    /// an ordinary match failure to the combinators, which may turn it into a success.
+    refused: bool,
 }
 
 impl Default for CallLimitTracker {
@@ -140,7 +143,10 @@ impl Default for CallLimitTracker {
         #[cfg(pest_parser_pest_verif)]
         crate::verif::emit(crate::verif::Site::CallLimitLoad(limit));
         let current_call_limit = if limit > 0 { Some((0, limit)) } else { None };
-        Self { current_call_limit }
+        Self {
+            current_call_limit,
+            refused: false,
+        }
     }
 }
 
@@ -526,7 +532,14 @@ where
 {
     let state = ParserState::new(input);
 
-    match f(state) {
+    let result = match f(state) {
+        // A refused call may have been absorbed by an optional, a repetition or a
+        // negative predicate: the "successful" result is not the result of the parse.
+        Ok(state) if state.call_tracker.refused => Err(state),
+        result => result,
+    };
+
+    match result {
         Ok(state) => {
             let len = state.queue.len();
             Ok(new(Rc::new(state.queue), input, None, 0, len))
@@ -644,6 +657,7 @@ impl<'i, R: RuleType> ParserState<'i, R> {
             refused: self.call_tracker.limit_reached(),
         });
         if self.call_tracker.limit_reached() {
+            self.call_tracker.refused = true;
             return Err(self);
         }
         self.call_tracker.increment_depth();
@@ -652,7 +666,7 @@ impl<'i, R: RuleType> ParserState<'i, R> {
 
     #[inline]
     fn reached_call_limit(&self) -> bool {
-        self.call_tracker.limit_reached()
+        self.call_tracker.refused || self.call_tracker.limit_reached()
     }
 
     /// Wrapper needed to generate tokens. This will associate the `R` type rule to the closure
